@@ -127,6 +127,7 @@ type Params struct {
 	GenesisStake    []int64
 	AcctFunds       int64 // whole OLT per account
 	PoolFunds       int64 // whole OLT in the rewards pool
+	GenesisMatures  int   // number of distinct maturity heights carried by the genesis delegation state (exported-state genesis)
 }
 
 func SmallParams(seed uint64) Params {
@@ -235,6 +236,12 @@ func NewWorld(p Params) *World {
 		Balances:   balances, Staking: staking, Witness: witness,
 		Rewards: rewards.RewardMasterState{RewardState: rewards.NewRewardState(), CumuState: rewards.NewRewardCumuState()},
 		Domains: []consensus.DomainState{}, Fees: []consensus.BalanceState{}, Governance: gov,
+	}
+	// an exported-state genesis: stake that is still maturing at several heights
+	for i := 0; i < p.GenesisMatures; i++ {
+		o := w.Vals[i%len(w.Vals)].Owner
+		w.State.Delegation.MatureAmounts = append(w.State.Delegation.MatureAmounts,
+			&delegation.MatureData{Address: o.Addr, Amount: *balance.NewAmount(int64(1 + i)), Height: int64(3 + 2*i)})
 	}
 	gd, err := consensus.NewGenesisDoc(w.ChainID, w.State)
 	if err != nil {
